@@ -18,11 +18,14 @@ Rec == ndJsonDeserialize(IOEnv.TRACE)
 AnsOk(r)  == \E a \in (IF r.connected THEN Acceptable(r.segs, r.term) ELSE {Bad502}) : AnsEq(r.got, a)
 \* (a target that never reads the request has, by construction, not received it: nothing to compare)
 FwdOk(r)  == (r.connected /\ ~r.noread) => (r.seenok /\ FwdEq(r.seen, Forward(r.req, r.route, r.entry)))
-Ok(r)     == AnsOk(r) /\ ~r.late /\ FwdOk(r)
+\* "within the configured timeout": for proxy_request the harness configures the timeout, so lateness gates; the
+\* timeout proxy_handler passes (5 s today) is not part of the property, so for that entry only a hang gates
+LateGates(r) == r.late /\ (r.entry = "core" \/ r.got.kind = "hang")
+Ok(r)     == AnsOk(r) /\ ~LateGates(r) /\ FwdOk(r)
 \* deviations that predict exactly this observation (lateness is explained only by a predicted hang)
 Ideal(r)  == IF r.connected THEN Acceptable(r.segs, r.term) ELSE {Bad502}
 \* a deviation explains the record iff it predicts exactly this observation AND that prediction is itself not acceptable
-Explains(r) == IF FwdOk(r) /\ r.connected /\ (r.late => r.got.kind = "hang")
+Explains(r) == IF FwdOk(r) /\ r.connected /\ (LateGates(r) => r.got.kind = "hang")
                THEN { d \in RealDevs : LET p == Predict({d}, r.segs, r.term) IN
                                          AnsEq(r.got, p) /\ ~\E a \in Ideal(r) : AnsEq(p, a) }
                ELSE {}
@@ -34,7 +37,7 @@ Next == /\ l <= Len(Rec)
         /\ l' = l + 1
         /\ bad' = IF Ok(Rec[l]) THEN bad
                   ELSE Append(bad, [id |-> Rec[l].id, devs |-> SetToSeq(Explains(Rec[l])),
-                                    ans |-> AnsOk(Rec[l]), late |-> Rec[l].late, fwd |-> FwdOk(Rec[l])])
+                                    ans |-> AnsOk(Rec[l]), late |-> LateGates(Rec[l]), fwd |-> FwdOk(Rec[l])])
         /\ nontrivial' = nontrivial + (IF Rec[l].connected /\ Acceptable(Rec[l].segs, Rec[l].term) # {Bad502} THEN 1 ELSE 0)
 Spec == Init /\ [][Next]_<<l, bad, nontrivial>>
 
